@@ -691,36 +691,81 @@ func optTs(t *timestamppb.Timestamp) string {
 	return some(fmt.Sprintf("(%s, %s)", zT(t.Seconds), zT(int64(t.Nanos))))
 }
 
-// FieldTerm renders a schema_j5pb.Field as a Coq [fschema] (exported form: scalars
-// carry no Kind / WellKnownTypeName).
-func FieldTerm(f *schema_j5pb.Field) (string, error) {
+// schemaTerm renders the `schema` oneof of an enum / object / oneof field of the source form.
+func schemaTerm(ref *schema_j5pb.Ref, inline bool) string {
+	switch {
+	case ref != nil:
+		return "(XRef " + refTerm(ref) + ")"
+	case inline:
+		return "XInline"
+	}
+	return "XUnset"
+}
+
+// FieldTerm renders a schema_j5pb.Field as a Coq [xfield] (coq/model/ExportForm.v).
+func FieldTerm(f *schema_j5pb.Field) (string, error) { return j5FieldTerm(f, true) }
+
+// j5FieldTerm: x = true renders the source form ([xfield]); x = false renders the same message as the
+// reader's [fschema] with the scalar Kind / WellKnownTypeName absent (FScalar None), for the direct
+// comparison with the reader's own objects (inline schemas are not representable there).
+func j5FieldTerm(f *schema_j5pb.Field, x bool) (string, error) {
+	con := func(name string) string {
+		if x {
+			return "X" + name
+		}
+		return "F" + name
+	}
+	sch := func(ref *schema_j5pb.Ref, inline bool, what string) (string, error) {
+		if x {
+			return schemaTerm(ref, inline), nil
+		}
+		if ref == nil {
+			return "", fmt.Errorf("inline or unset %s", what)
+		}
+		return refTerm(ref), nil
+	}
 	switch t := f.Type.(type) {
 	case *schema_j5pb.Field_Any:
-		return fmt.Sprintf("(FAny %s %s %s)", boolT(t.Any.OnlyDefined), strList(t.Any.Types), optTok(t.Any.ListRules)), nil
+		return fmt.Sprintf("(%s %s %s %s)", con("Any"), boolT(t.Any.OnlyDefined), strList(t.Any.Types), optTok(t.Any.ListRules)), nil
 	case *schema_j5pb.Field_Enum:
-		r, ok := t.Enum.Schema.(*schema_j5pb.EnumField_Ref)
-		if !ok {
-			return "", fmt.Errorf("inline enum")
+		var ref *schema_j5pb.Ref
+		if r, ok := t.Enum.Schema.(*schema_j5pb.EnumField_Ref); ok {
+			ref = r.Ref
+		}
+		_, inline := t.Enum.Schema.(*schema_j5pb.EnumField_Enum)
+		st, err := sch(ref, inline, "enum")
+		if err != nil {
+			return "", err
 		}
 		rules := "None"
 		if t.Enum.Rules != nil {
 			rules = some("(" + strList(t.Enum.Rules.In) + ", " + strList(t.Enum.Rules.NotIn) + ")")
 		}
-		return fmt.Sprintf("(FEnum %s %s %s %s)", refTerm(r.Ref), rules, optTok(t.Enum.ListRules), optTok(t.Enum.Ext)), nil
+		return fmt.Sprintf("(%s %s %s %s %s)", con("Enum"), st, rules, optTok(t.Enum.ListRules), optTok(t.Enum.Ext)), nil
 	case *schema_j5pb.Field_Object:
-		r, ok := t.Object.Schema.(*schema_j5pb.ObjectField_Ref)
-		if !ok {
-			return "", fmt.Errorf("inline object")
+		var ref *schema_j5pb.Ref
+		if r, ok := t.Object.Schema.(*schema_j5pb.ObjectField_Ref); ok {
+			ref = r.Ref
 		}
-		return fmt.Sprintf("(FObject %s %s %s %s)", refTerm(r.Ref), boolT(t.Object.Flatten), optTok(t.Object.Rules), optTok(t.Object.Ext)), nil
+		_, inline := t.Object.Schema.(*schema_j5pb.ObjectField_Object)
+		st, err := sch(ref, inline, "object")
+		if err != nil {
+			return "", err
+		}
+		return fmt.Sprintf("(%s %s %s %s %s)", con("Object"), st, boolT(t.Object.Flatten), optTok(t.Object.Rules), optTok(t.Object.Ext)), nil
 	case *schema_j5pb.Field_Oneof:
-		r, ok := t.Oneof.Schema.(*schema_j5pb.OneofField_Ref)
-		if !ok {
-			return "", fmt.Errorf("inline oneof")
+		var ref *schema_j5pb.Ref
+		if r, ok := t.Oneof.Schema.(*schema_j5pb.OneofField_Ref); ok {
+			ref = r.Ref
 		}
-		return fmt.Sprintf("(FOneof %s %s %s %s)", refTerm(r.Ref), optTok(t.Oneof.Rules), optTok(t.Oneof.ListRules), optTok(t.Oneof.Ext)), nil
+		_, inline := t.Oneof.Schema.(*schema_j5pb.OneofField_Oneof)
+		st, err := sch(ref, inline, "oneof")
+		if err != nil {
+			return "", err
+		}
+		return fmt.Sprintf("(%s %s %s %s %s)", con("Oneof"), st, optTok(t.Oneof.Rules), optTok(t.Oneof.ListRules), optTok(t.Oneof.Ext)), nil
 	case *schema_j5pb.Field_Map:
-		item, err := FieldTerm(t.Map.ItemSchema)
+		item, err := j5FieldTerm(t.Map.ItemSchema, x)
 		if err != nil {
 			return "", err
 		}
@@ -732,9 +777,9 @@ func FieldTerm(f *schema_j5pb.Field) (string, error) {
 		if t.Map.Ext != nil {
 			ext = some(optStr(t.Map.Ext.SingleForm))
 		}
-		return fmt.Sprintf("(FMap %s %s %s)", item, rules, ext), nil
+		return fmt.Sprintf("(%s %s %s %s)", con("Map"), item, rules, ext), nil
 	case *schema_j5pb.Field_Array:
-		item, err := FieldTerm(t.Array.Items)
+		item, err := j5FieldTerm(t.Array.Items, x)
 		if err != nil {
 			return "", err
 		}
@@ -746,11 +791,14 @@ func FieldTerm(f *schema_j5pb.Field) (string, error) {
 		if t.Array.Ext != nil {
 			ext = some(optStr(t.Array.Ext.SingleForm))
 		}
-		return fmt.Sprintf("(FArray %s %s %s)", item, rules, ext), nil
+		return fmt.Sprintf("(%s %s %s %s)", con("Array"), item, rules, ext), nil
 	}
 	p, err := sprotoTerm(f)
 	if err != nil {
 		return "", err
+	}
+	if x {
+		return "(XScalar " + p + ")", nil
 	}
 	return "(FScalar None " + p + ")", nil
 }
@@ -837,8 +885,8 @@ func sprotoTerm(f *schema_j5pb.Field) (string, error) {
 	return "", fmt.Errorf("field without a known type: %T", f.Type)
 }
 
-func propTerm(p *schema_j5pb.ObjectProperty) (string, error) {
-	s, err := FieldTerm(p.Schema)
+func propTerm(p *schema_j5pb.ObjectProperty, x bool) (string, error) {
+	s, err := j5FieldTerm(p.Schema, x)
 	if err != nil {
 		return "", err
 	}
@@ -846,21 +894,37 @@ func propTerm(p *schema_j5pb.ObjectProperty) (string, error) {
 	for _, n := range p.ProtoField {
 		path = append(path, fmt.Sprintf("%d", n))
 	}
-	return fmt.Sprintf("Prop_ %s %s %s %s %s %s", Str(p.Name), list(path), boolT(p.Required), boolT(p.ExplicitlyOptional), Str(p.Description), s), nil
+	con := "Prop_"
+	if x {
+		con = "XProp"
+	}
+	return fmt.Sprintf("%s %s %s %s %s %s %s", con, Str(p.Name), list(path), boolT(p.Required), boolT(p.ExplicitlyOptional), Str(p.Description), s), nil
 }
 
-// RootTerm renders an exported RootSchema as a Coq [root].
-func RootTerm(r *schema_j5pb.RootSchema) (string, error) {
+// RootTerm renders an exported RootSchema as a Coq [xroot] (the source form, coq/model/ExportForm.v).
+func RootTerm(r *schema_j5pb.RootSchema) (string, error) { return rootTerm(r, true) }
+
+// RootTermAsReflected renders an exported RootSchema with the constructors of the reader's [root]
+// (scalars as FScalar None): what the reader's own object must look like apart from Kind / WKT name.
+func RootTermAsReflected(r *schema_j5pb.RootSchema) (string, error) { return rootTerm(r, false) }
+
+func rootTerm(r *schema_j5pb.RootSchema, x bool) (string, error) {
 	props := func(ps []*schema_j5pb.ObjectProperty) (string, error) {
 		var it []string
 		for _, p := range ps {
-			s, err := propTerm(p)
+			s, err := propTerm(p, x)
 			if err != nil {
 				return "", err
 			}
 			it = append(it, s)
 		}
 		return list(it), nil
+	}
+	con := func(xname, rname string) string {
+		if x {
+			return xname
+		}
+		return rname
 	}
 	switch t := r.Type.(type) {
 	case *schema_j5pb.RootSchema_Object:
@@ -872,22 +936,22 @@ func RootTerm(r *schema_j5pb.RootSchema) (string, error) {
 		if t.Object.Entity != nil {
 			ent = some(fmt.Sprintf("(%s, %d)", Str(t.Object.Entity.Entity), int32(t.Object.Entity.Part)))
 		}
-		return fmt.Sprintf("RObject %s %s %s %s %s", Str(t.Object.Name), Str(t.Object.Description), ent, strList(t.Object.AnyMember), ps), nil
+		return fmt.Sprintf("%s %s %s %s %s %s", con("XObjectR", "RObject"), Str(t.Object.Name), Str(t.Object.Description), ent, strList(t.Object.AnyMember), ps), nil
 	case *schema_j5pb.RootSchema_Oneof:
 		ps, err := props(t.Oneof.Properties)
 		if err != nil {
 			return "", err
 		}
-		return fmt.Sprintf("ROneof %s %s %s", Str(t.Oneof.Name), Str(t.Oneof.Description), ps), nil
+		return fmt.Sprintf("%s %s %s %s", con("XOneofR", "ROneof"), Str(t.Oneof.Name), Str(t.Oneof.Description), ps), nil
 	case *schema_j5pb.RootSchema_Enum:
 		var opts, info []string
 		for _, o := range t.Enum.Options {
-			opts = append(opts, fmt.Sprintf("EnumOption %s %s %s %s", Str(o.Name), zT(int64(o.Number)), Str(o.Description), infoTerm(o.Info)))
+			opts = append(opts, fmt.Sprintf("%s %s %s %s %s", con("XOption", "EnumOption"), Str(o.Name), zT(int64(o.Number)), Str(o.Description), infoTerm(o.Info)))
 		}
 		for _, f := range t.Enum.Info {
 			info = append(info, fmt.Sprintf("(%s, %s, %s)", Str(f.Name), Str(f.Label), Str(f.Description)))
 		}
-		return fmt.Sprintf("REnum %s %s %s %s %s", Str(t.Enum.Name), Str(t.Enum.Description), Str(t.Enum.Prefix), list(opts), list(info)), nil
+		return fmt.Sprintf("%s %s %s %s %s %s", con("XEnumR", "REnum"), Str(t.Enum.Name), Str(t.Enum.Description), Str(t.Enum.Prefix), list(opts), list(info)), nil
 	}
 	return "", fmt.Errorf("root without a type")
 }
